@@ -397,6 +397,19 @@ def run(a):
             assumptions.add(t)
 
     solve.discharge(obligations, procs)
+    # second chance: an obligation left open is tried once more with every stage budget tripled and fewer processes side by side, so that a
+    # verdict does not flip to "undecided" merely because the machine was busy (a discharged obligation is never re-examined)
+    again = [ob for ob in obligations if ob.result["status"] == "unknown"]
+    if again and len(again) <= 24:
+        first = {ob.name: ob.result for ob in again}
+        solve.SCALE[0] = 3.0
+        try:
+            solve.discharge(again, max(2, procs // 3))
+        finally:
+            solve.SCALE[0] = 1.0
+        for ob in again:
+            ob.result["log"] = [("first-pass", first[ob.name]["log"], first[ob.name]["time"])] + list(ob.result["log"])
+            ob.result["time"] = round(ob.result["time"] + first[ob.name]["time"], 4)
 
     # ---- bounded stand-ins -------------------------------------------------------------------
     for sc, reg in regs:
